@@ -198,6 +198,9 @@ func (tbls *TBLS) KeyGen(ctx context.Context) ([]byte, error) {
 	// We then distribute the polynomial evaluations (shares) to all parties.
 	// Each party 'i' gets P(i).
 	tbls.shareDistribution(ctx, shares)
+	if tbls.contextTimedOut(ctx) {
+		return nil, fmt.Errorf("key generation aborted while waiting for shares: %w", ctx.Err())
+	}
 
 	// Having received all shares, we combine all shares received from all parties by adding them.
 	// Now, the private key of each party 'i' is defined to be:
@@ -209,9 +212,15 @@ func (tbls *TBLS) KeyGen(ctx context.Context) ([]byte, error) {
 	// Instead, we commit to it and send our commitment to everyone,
 	// and wait for commitments from everyone else.
 	tbls.commitPhase(ctx, pk)
+	if tbls.contextTimedOut(ctx) {
+		return nil, fmt.Errorf("key generation aborted while waiting for commitments: %w", ctx.Err())
+	}
 
 	// Now we de-commit, and wait for everyone else to de-commit thus revealing their public key.
 	tbls.revealPhase(ctx, pk)
+	if tbls.contextTimedOut(ctx) {
+		return nil, fmt.Errorf("key generation aborted while waiting for public keys: %w", ctx.Err())
+	}
 	// Next, we ensure the commitments we received match the de-commitments
 	if err := tbls.validateCommitments(); err != nil {
 		return nil, err
